@@ -3,7 +3,7 @@ import ast, z3
 from . import types as T
 from . import extract as X
 from . import registry as R
-from .state import SV, State, VCError, Display, PyFunc, fresh, fresh_sort
+from .state import SV, State, VCError, Display, PyFunc, fresh, fresh_sort, fresh_mark, new_consts
 from .expr import I, S, is_pystr
 
 NONE = lambda: SV(T.NoneT, z3.BoolVal(True))
@@ -258,6 +258,8 @@ class StmtMixin:
         """Run the body once without emitting obligations to find which variables / heap cells it may assign."""
         self.quiet += 1
         mod_env, mod_heap, alloc_changed = {}, set(), False
+        self._written_refs = {}
+        mark = fresh_mark()
         sink = []
         try:
             probe = st.fork(); probe.exc_sink = sink
@@ -266,14 +268,30 @@ class StmtMixin:
                     old = st.env.get(k)
                     if old is None or old.ty != sv.ty or not _same(old.t, sv.t): mod_env[k] = sv.ty
                 for k, arr in s2.heap.items():
-                    if not self.harr(st, *k).eq(arr): mod_heap.add(k)
+                    if not self.harr(st, *k).eq(arr):
+                        mod_heap.add(k); self._note_writes(k, arr, self.harr(st, *k), mark)
                 if not s2.alloc.eq(st.alloc): alloc_changed = True
             for s2, e in sink:
                 for k, arr in s2.heap.items():
-                    if not self.harr(st, *k).eq(arr): mod_heap.add(k)
+                    if not self.harr(st, *k).eq(arr):
+                        mod_heap.add(k); self._note_writes(k, arr, self.harr(st, *k), mark)
         finally:
             self.quiet -= 1
-        return mod_env, mod_heap, alloc_changed
+        return mod_env, {k: self._written_refs.get(k) for k in mod_heap}, alloc_changed
+
+    def _note_writes(self, k, arr, base, mark):
+        """arr = Store(...Store(base, r1, v1)..., rn, vn) with loop-invariant references r_i: remember {r_i}; otherwise None (= anything)"""
+        refs = []
+        cur = arr
+        while not cur.eq(base) and z3.is_app(cur) and cur.decl().kind() == z3.Z3_OP_STORE:
+            refs.append(cur.arg(1)); cur = cur.arg(0)
+        ok = cur.eq(base) and not new_consts(refs, mark)
+        prev = self._written_refs.get(k, [])
+        if not ok or prev is None: self._written_refs[k] = None
+        else:
+            for r in refs:
+                if not any(r.eq(p) for p in prev): prev.append(r)
+            self._written_refs[k] = prev
 
     def havoc(self, st, mod_env, mod_heap, alloc_changed):
         for k, ty in mod_env.items():
@@ -284,9 +302,14 @@ class StmtMixin:
             nv = SV(ty, fresh("hv_" + k, ty))
             st.env[k] = nv
             self.assume_wf(st, nv)
-        for k in mod_heap:
+        for k, refs in (mod_heap.items() if isinstance(mod_heap, dict) else [(k, None) for k in mod_heap]):
             arr = self.harr(st, *k)
-            st.heap[k] = fresh_sort("Hh_%s_%s" % k, arr.sort())
+            new = fresh_sort("Hh_%s_%s" % k, arr.sort())
+            if refs is not None:
+                # the body writes this field only at loop-invariant references: every other object keeps its value
+                r = z3.Int("r!hv")
+                st.assume(z3.ForAll([r], z3.Implies(z3.And([r != x for x in refs]), z3.Select(new, r) == z3.Select(arr, r))))
+            st.heap[k] = new
         if alloc_changed:
             na = fresh("alloc", T.Int); st.assume(na >= st.alloc); st.alloc = na
 
